@@ -3,6 +3,8 @@ import Dmn.Lemmas.LexerNormalise
 import Dmn.Lemmas.LexerRoundtrip
 import Dmn.Lemmas.LexerOperator
 import Dmn.Lemmas.LexerNextChar
+import Dmn.Gen.NameChars
+import Dmn.Model.NameGrammar
 
 /-!
 # C10 — names with spaces and symbols resolve to their bound value (longest match)
@@ -418,5 +420,123 @@ def exLx4 : Lx :=
     between := false, typeName := false, tillIn := false, keys := [[97], [98]] }
 example : consumeName exLx4 = .ok (⟨.name, .name [97]⟩, { exLx4 with pos := 1 }) ∧
     readNextToken { exLx4 with pos := 1 } = .ok (tk .minus, { exLx4 with pos := 3 }) := by decide
+
+/-! ## The character classes of names are the grammar's
+
+`Dmn.Gen.NameChars` is regenerated from `lexer.rs` on every run (`translate/namechars.py`: the
+`matches!` patterns, or a range table with `..` / `..=`, of `is_name_start_char`,
+`is_name_part_char`, `is_additional_name_symbol`, `is_whitespace`, `is_vertical_space`, as sorted,
+merged closed ranges).  `Dmn.NameGrammar` is written out from rules 28-30, 61, 62 of the DMN
+specification.  For EVERY code point the three agree: the code (as regenerated), the hand-written
+lexer model the other theorems are about, and the grammar.  An edit of a range in `lexer.rs`
+— an off-by-one at the end of a range, a dropped or added alternative — breaks these obligations,
+and the correspondence family `name-char-ranges` shows the bound name that no longer resolves. -/
+
+open Dmn.Gen.NameChars Dmn.NameGrammar in
+/-- `is_name_start_char` (regenerated table), the lexer model and grammar rule 28 are one set. -/
+theorem name_start_char_is_grammar (c : Nat) :
+    inRanges nameStartRanges c = nameStartChar c ∧ isNameStartChar c = nameStartChar c := by
+  constructor
+  · rw [Bool.eq_iff_iff]
+    simp only [nameStartChar, inRanges, nameStartRanges, nameStartCharRanges, List.any_cons, List.any_nil,
+      Bool.or_false, Bool.or_eq_true, Bool.and_eq_true, decide_eq_true_eq]
+  · rw [Bool.eq_iff_iff]
+    simp only [isNameStartChar, nameStartChar, inRanges, nameStartCharRanges, List.any_cons, List.any_nil,
+      Bool.or_false, Bool.or_eq_true, Bool.and_eq_true, decide_eq_true_eq, beq_iff_eq]
+    omega
+
+open Dmn.Gen.NameChars Dmn.NameGrammar in
+/-- `is_name_part_char` (regenerated table), the lexer model and grammar rule 29 are one set. -/
+theorem name_part_char_is_grammar (c : Nat) :
+    inRanges namePartRanges c = namePartChar c ∧ isNamePartChar c = namePartChar c := by
+  constructor
+  · rw [Bool.eq_iff_iff]
+    simp only [namePartChar, nameStartChar, inRanges, namePartRanges, nameStartCharRanges, namePartExtraRanges,
+      List.any_cons, List.any_nil, Bool.or_false, Bool.or_eq_true, Bool.and_eq_true, decide_eq_true_eq]
+    omega
+  · rw [Bool.eq_iff_iff]
+    simp only [isNamePartChar, isNameStartChar, isDigit, namePartChar, nameStartChar, inRanges, nameStartCharRanges,
+      namePartExtraRanges, List.any_cons, List.any_nil, Bool.or_false, Bool.or_eq_true, Bool.and_eq_true,
+      decide_eq_true_eq, beq_iff_eq]
+    omega
+
+open Dmn.Gen.NameChars Dmn.NameGrammar in
+/-- The additional name symbols (rule 30) and white space (rules 61, 62), likewise. -/
+theorem name_symbols_and_white_space_are_grammar (c : Nat) :
+    (inRanges additionalSymbolRanges c = additionalNameSymbol c ∧ isAdditionalNameSymbol c = additionalNameSymbol c) ∧
+    (inRanges whitespaceRanges c = whiteSpace c ∧ isWhitespace c = whiteSpace c) ∧
+    (inRanges verticalSpaceRanges c = verticalSpace c ∧ isVerticalSpace c = verticalSpace c) := by
+  refine ⟨⟨?_, ?_⟩, ⟨?_, ?_⟩, ⟨?_, ?_⟩⟩
+  · rw [Bool.eq_iff_iff]
+    simp only [additionalNameSymbol, inRanges, additionalSymbolRanges, List.any_cons, List.any_nil, Bool.or_false,
+      Bool.or_eq_true, Bool.and_eq_true, decide_eq_true_eq, beq_iff_eq]
+    omega
+  · rw [Bool.eq_iff_iff]
+    simp only [isAdditionalNameSymbol, additionalNameSymbol, Bool.or_eq_true, beq_iff_eq]
+  · rw [Bool.eq_iff_iff]
+    simp only [whiteSpace, verticalSpace, whiteSpaceExtraRanges, inRanges, whitespaceRanges, List.any_cons, List.any_nil,
+      Bool.or_false, Bool.or_eq_true, Bool.and_eq_true, decide_eq_true_eq]
+    omega
+  · rw [Bool.eq_iff_iff]
+    simp only [isWhitespace, isVerticalSpace, whiteSpace, verticalSpace, whiteSpaceExtraRanges, inRanges, List.any_cons,
+      List.any_nil, Bool.or_false, Bool.or_eq_true, Bool.and_eq_true, decide_eq_true_eq, beq_iff_eq]
+    omega
+  · rw [Bool.eq_iff_iff]
+    simp only [verticalSpace, inRanges, verticalSpaceRanges, List.any_cons, List.any_nil, Bool.or_false,
+      Bool.and_eq_true, decide_eq_true_eq]
+  · rfl
+
+/-! ## A declared name and its references
+
+A name gets into a scope either as `Name::new(parts)` or through `parse_longest_name(text)`
+(declared names of the model layer, keys of the server's input): the lexer run on the declaration
+with NO key in the scope.  Whatever the spelling of the declaration, the token carries the
+`Name::new` text of its parts — the very text under which `bound_name_resolves` finds every spelling
+of a reference. -/
+
+/-- Lexing ANY legal spelling of a name with an empty scope — what `parse_longest_name` does —
+yields one token carrying `Name::new` of the parts, the whole text being consumed by the part
+collector.  (First word `item`: the filter-variable tweak cuts the name, reported as D7; a
+comment opener ends a name.) -/
+theorem declared_name_is_name_new (l : Lx) (p0 : List Nat) (ps sps : List (List Nat))
+    (hinp : l.input = renderName (p0 :: ps) ([] :: sps)) (hpos : l.pos = 0) (hkeys : l.keys = [])
+    (hok : renderOk false (p0 :: ps) ([] :: sps) = true) (hw : isWordPart p0 = true)
+    (hnc : noCommentStart (renderName (p0 :: ps) ([] :: sps)) = true)
+    (hamb : NoAmbiguousBlank l.input) (htill : l.tillIn = false) (hitem : p0 ≠ kwItem) :
+    ∃ tt l', consumeName l = .ok (⟨tt, .name (nameNew (p0 :: ps))⟩, l') ∧
+      (tt = .name ∨ tt = .nameDateTime ∨ tt = .builtInTypeName) := by
+  have hne : p0 ≠ [] := by intro he; subst he; simp [isWordPart] at hw
+  obtain ⟨c0, w0, rfl⟩ : ∃ c0 w0, p0 = c0 :: w0 := by
+    cases p0 with
+    | nil => exact absurd rfl hne
+    | cons c w => exact ⟨c, w, rfl⟩
+  have hc0 : isNamePartChar c0 = true := by
+    simp only [isWordPart, List.all_cons, Bool.and_eq_true] at hw
+    exact hw.2.1
+  have hat : l.input[l.pos]? = some c0 := by rw [hinp, hpos]; simp [renderName]
+  obtain ⟨st, hst⟩ := collectParts_ok hat
+  have hsplit := collectParts_eq_split hamb (fun ch hch => by rw [hat] at hch; cases hch; exact hc0) hst
+  have hsr := split_render ((c0 :: w0) :: ps) ([] :: sps) false 0 [] hok (by intro ch h; simp at h)
+    (by simpa using hnc)
+  have hparts : st.parts = (c0 :: w0) :: ps := by
+    rw [hsplit.1, hpos, hinp, List.drop_zero]
+    unfold splitParts
+    have := hsr
+    simp only [List.append_nil] at this
+    rw [this]
+    simp [splitGo, ends_fst]
+  obtain ⟨tt, l', h1, _, h3⟩ := unbound_whole_name l st hst
+    (by rw [hparts]; simpa using hitem) (Or.inl htill)
+    (by intro j _ _; rw [key_lookup_is_name_new, hkeys]; rfl)
+  exact ⟨tt, l', by rw [h1, hparts], h3⟩
+
+-- `Profit /Loss` (the witness of seeded change C10-17) declares the name `Profit/Loss`
+def exDeclared : Lx :=
+  { input := [80, 114, 111, 102, 105, 116, 32, 47, 76, 111, 115, 115], pos := 0, start := none, unaryTests := false,
+    between := false, typeName := false, tillIn := false, keys := [] }
+example : exDeclared.input = renderName [[80, 114, 111, 102, 105, 116], [47], [76, 111, 115, 115]] [[], [32], []] ∧
+    renderOk false [[80, 114, 111, 102, 105, 116], [47], [76, 111, 115, 115]] [[], [32], []] = true ∧
+    nameNew [[80, 114, 111, 102, 105, 116], [47], [76, 111, 115, 115]] = [80, 114, 111, 102, 105, 116, 47, 76, 111, 115, 115] ∧
+    (consumeName exDeclared).isPanic = false := by decide
 
 end Dmn.Lexer
